@@ -23,6 +23,7 @@ from .msgs import create_request_by_name
 from .msgs import constants
 from .event import EVENT_ASSERTION, EVENT_DEASSERTION
 
+from . import errors
 from .helper import clear_repository_helper
 from .state import State
 
@@ -52,9 +53,10 @@ class Sel(object):
                                           record_id=record_id)
         return rsp.record_id
 
-    def get_and_clear_sel_entry(self, record_id):
+    def get_and_clear_sel_entry(self, record_id, retry=5):
         """Atomically gets and clears the specified SEL record"""
-        while True:
+        while retry > 0:
+            retry -= 1
             reservation = self.get_sel_reservation_id()
             try:
                 sel_entry, _ = self.get_sel_entry(record_id, reservation)
@@ -71,6 +73,7 @@ class Sel(object):
                 else:
                     raise
             return sel_entry
+        raise errors.RetryError()
 
     def get_sel_entry(self, record_id, reservation=0):
         ENTIRE_RECORD = 0xff
